@@ -84,8 +84,8 @@ def make_qe(d):
     if d["kind"] == "vector":
         return np.array(d["value"], dtype=d.get("dtype"))
     from checks import common as cm
-    s = Spectrum(d["w_nm"] * rs.factor("nm", d["unit"]), d["v"].copy(), waveunit=d["unit"])
-    return cm.derive_obj(s, len(d["w_nm"]) + int(abs(float(d["v"][0])) * 1000))[0]
+    return cm.build_obj(Spectrum, "lentil.radiometry.Spectrum", len(d["w_nm"]) + int(abs(float(d["v"][0])) * 1000),
+                        d["w_nm"] * rs.factor("nm", d["unit"]), d["v"].copy(), waveunit=d["unit"])[0]
 
 
 def qe_values(d, wave_nm):
